@@ -67,7 +67,7 @@ pub struct CntOut {
 }
 
 pub fn run_count(c: &CntCase, work: &str, uid: &str, pre_dir: Option<&str>) -> CntOut {
-    let inp = write_input(work, uid, &c.recs, "fa");
+    let inp = write_input(work, uid, &c.recs, &crate::p_file::container_for(&c.req(), &c.recs));
     let dir = match pre_dir {
         Some(d) => d.to_string(),
         None => format!("{}/cnt_{}", work, uid),
